@@ -286,6 +286,10 @@ func Observe(st ReadStore, d *DAG, refs []string, digests bool) string {
 				extra += " extra-annotation:" + k
 			}
 		}
+		if rn, ok := desc.Annotations[ocispec.AnnotationRefName]; ok && rn != r {
+			// the reference-name annotation may be absent (live store) or name r (reopened store), never another reference
+			extra += " refname-of-another-reference:" + rn
+		}
 		fmt.Fprintf(&sb, "ref %q -> %s ann=%v%s\n", r, nm, ann, extra)
 	}
 	if tl, ok := st.(tagLister); ok {
